@@ -196,7 +196,7 @@ func (x *Exec) callFunc(st *State, fr *frame, site ssa.Instruction, fn *ssa.Func
 		x.applyContract(st, fr, con, name, fn.Signature, fn, args, k)
 		return
 	}
-	inRepo := fn.Pkg != nil && strings.HasPrefix(fn.Pkg.Pkg.Path(), "github.com/regen-network/regen-ledger")
+	inRepo := fn.Pkg != nil && (strings.HasPrefix(fn.Pkg.Pkg.Path(), "github.com/regen-network/regen-ledger") || fn.Pkg.Pkg.Path() == "unit")
 	if fn.Parent() != nil || (con != nil && con.Inline) || (inRepo && x.autoInline(fn)) || trivialGetter(fn) {
 		s.Inlined[name] = true
 		x.runFunc(st, fn, args, bind, fr.depth+1, con, false, wrapK)
@@ -375,6 +375,7 @@ func (x *Exec) builtin(st *State, fr *frame, b *ssa.Builtin, cc *ssa.CallCommon,
 					fl, dst.Off, dst.Off, n, sc.Leaves[i], dst.Off, src.Off, l, fl))
 				nc.Leaves = append(nc.Leaves, fl)
 			}
+			s.noteArrWrite(st, dst.Arr)
 			st.arrs[dst.Arr] = nc
 		}
 		k(st, scInt(n))
@@ -546,6 +547,48 @@ func (x *Exec) applyContract(st *State, fr *frame, con *Contract, name string, s
 		x.assumeOrPanic(st, fr, env.term(pc.Sx), "panic@"+shortName(name)+"."+pc.Label)
 	}
 	pre = st.Clone()
+	// the callee was verified with parameters that do not alias: an object it modifies must not be
+	// passed twice
+	for _, m := range con.Modifies {
+		if !strings.HasPrefix(m, "*") || con.Assumed || strings.Contains(m, ".") {
+			continue // assumed library contracts state their own aliasing rules (math/big allows z == x)
+		}
+		obj := func(v Val) (interface{}, bool) {
+			for {
+				iv, isI := v.(Iface)
+				if !isI || iv.Dyn == nil {
+					break
+				}
+				v = iv.V
+			}
+			switch pv := v.(type) {
+			case Ptr:
+				if pv.Loc != nil {
+					return pv.Loc, true
+				}
+				if pv.Arr != nil {
+					return pv.Arr, true
+				}
+			case Slice:
+				if pv.Arr != nil {
+					return pv.Arr, true
+				}
+			}
+			return nil, false
+		}
+		mo, ok := obj(env.vars[m[1:]])
+		if !ok {
+			continue
+		}
+		for n2, v2 := range env.vars {
+			if n2 == m[1:] {
+				continue
+			}
+			if o2, ok := obj(v2); ok && o2 == mo {
+				subsetf("call of %s: arguments %s and %s are the same object, which the callee modifies (contracts assume separate parameters)", name, m[1:], n2)
+			}
+		}
+	}
 	// havoc the footprint
 	for _, m := range con.Modifies {
 		x.havocTarget(st, env, m)
@@ -724,11 +767,15 @@ func (x *Exec) havocTarget(st *State, env *Env, m string) {
 				nc.Leaves = append(nc.Leaves, s.declare(s.fresh(fmt.Sprintf("inplace:%s#%d", sl.Arr.Name, i)), "(Array Int "+so+")"))
 			}
 		}
+		s.noteArrWrite(st, sl.Arr)
 		st.arrs[sl.Arr] = nc
 		return
 	}
 	if strings.HasPrefix(m, "*") {
 		v, ok := env.vars[m[1:]]
+		if !ok && strings.Contains(m, ".") {
+			v, ok = env.pathVal(m[1:]), true
+		}
 		if !ok {
 			panic(fmt.Errorf("%s: modifies %s: unknown parameter", env.where, m))
 		}
@@ -738,6 +785,25 @@ func (x *Exec) havocTarget(st *State, env *Env, m string) {
 				break
 			}
 			v = iv.V
+		}
+		if sl, isSl := v.(Slice); isSl {
+			// a slice: its elements and everything behind them
+			if sl.Arr == nil {
+				return
+			}
+			s.noteArrWrite(st, sl.Arr)
+			c := s.arrContent(st, sl.Arr)
+			nc := &ArrContent{Cells: map[string]Val{}, Sym: true}
+			if c.Leaves != nil {
+				sorts, _ := s.leafSorts(sl.Arr.Elem)
+				for i, so := range sorts {
+					nc.Leaves = append(nc.Leaves, s.declare(s.fresh(fmt.Sprintf("inplace:%s#%d", sl.Arr.Name, i)), "(Array Int "+so+")"))
+				}
+			} else {
+				sl.Arr.Name = s.fresh("havoc:" + sl.Arr.Name)
+			}
+			st.arrs[sl.Arr] = nc
+			return
 		}
 		p, ok := v.(Ptr)
 		if !ok {
